@@ -71,6 +71,23 @@ daglish.register_node_traverser(
     path_elements_fn=lambda b: tuple(daglish.Index(i) for i in range(len(b.items))),
 )
 
+class Table:
+  """User-registered node type whose flatten yields *temporary tuples* (key, value) that die right after use."""
+
+  def __init__(self, d):
+    self.d = dict(d)
+
+  def __getitem__(self, i):
+    return tuple(self.d.items())[i]
+
+
+daglish.register_node_traverser(
+    Table,
+    flatten_fn=lambda t: (tuple(t.d.items()), None),
+    unflatten_fn=lambda values, _: Table(dict(values)),
+    path_elements_fn=lambda t: tuple(daglish.Index(i) for i in range(len(t.d))),
+)
+
 WRAP_NAMES = ['none', 'list', 'tuple', 'dict', 'namedtuple', 'list_in_dict']
 
 
